@@ -1,6 +1,6 @@
 (* C06 - abstract machine (kind A of DESIGN.md section 1) of the MSI protocol of
    proc/mvp7-0/msi.go + cc.go (identical in proc/mvp7-1; proc/mvp8-0 adds an
-   L3 level that is NOT modelled here, see Props/C06.v).
+   L3 level: Msi/L3Protocol.v wraps this machine, see Props/C06_l3.v).
 
    The machine is a labelled, nondeterministic transition system, parametric in
    the number of cores N, over arbitrarily many lines (a line = its aligned
